@@ -334,7 +334,9 @@ def lex_scalar_st(t):
     if isinstance(t, Types.Bool):
         return st.booleans().map(lambda b: ["bool", b])
     if isinstance(t, Types.String):
-        return st.builds(lambda s, style: ["str", s, style], string_st(t.length, True), st.integers(0, 3))
+        # in a document, character data may run over several lines (a message body, a wrapped memo): the line breaks are data
+        multi = st.sampled_from(["line one\nline two", "a\n  b", "x\n\ny", "1\n2\n3"]).filter(lambda s: t.length is None or len(s) <= t.length)
+        return st.builds(lambda s, style: ["str", s, style], st.integers(0, 11).flatmap(lambda i: multi if i == 0 and (t.length is None or t.length >= 6) else string_st(t.length, True)), st.integers(0, 3))
     if isinstance(t, Types.OneOf):
         return st.sampled_from(list(t.valid)).map(lambda s: ["tok", s])
     if isinstance(t, Types.Integer):
